@@ -26,7 +26,7 @@ TEXT = {
  "C15": ("translation_validation", "Differential: converters and schema (incl. descriptions: comments move with their declarations) generated from a descriptor with permuted field / message declaration order (sort off, and sort on) are equivalent to the original (incl. a second CopyFrom into the targets the first one filled) on all inputs within the bounds (objects with at most one non-null branch per oneof group). Accompanying (concrete): with sort: true the real plugin's file is byte-identical for the original, reversed and rotated declaration order of 11 programs.", "6 C15"),
  "C16": ("model_checking", "Level K: readFromCLI over symbolic parameter strings and a symbolic prior (YAML) configuration: trimmed non-empty parameter wins, '+' separation, ParseBool(ToLower) with fallback; ReadConfig with the file system / YAML parser as an environment (unreadable file, unparsable file, one type, explicit empty list, no types key): errors instead of defaults, CLI types win over YAML types; flagMap.UnmarshalYAML propagates the decoder's error and builds exactly the listed set.", "6 C16"),
  "C17": ("model_checking", "Level K: setCustomType / IsCustomType / GetCustomType for all option, custom_types and suffixes combinations within the string bound; getKind: a custom-type field is of the custom kind whatever else it is. Level G (recording hooks): schema entry of custom fields equals the hook result for the attribute the field would otherwise get; CopyFrom / CopyTo call the hook exactly once with the field / attribute type / current value and store its result (scalar, repeated scalar, and repeated / singular / map message fields declared custom via custom_types); a missing attribute is still a diagnostic. A generated file that references an undefined GenSchema<S>/CopyFrom<S>/CopyTo<S> (the support package defines the hooks under the documented names, incl. a type name with '_') is a violation.", "6 C17"),
- "C18": ("model_checking", "Level K: GetTerraformType returns an error exactly for time/duration fields without configured type and for unmappable proto types, for every type / option / configuration combination. Propagation through BuildField/BuildFields/build is observed on the real pipeline (16 shapes: depth 0-2, list / map contexts, a later selected type, two selected types sharing the offending message, with and without exclude_fields; accompanying, not solver-decided).", "6 C18"),
+ "C18": ("model_checking", "Level K: GetTerraformType returns an error exactly for time/duration fields without configured type and for unmappable proto types, for every type / option / configuration combination. Propagation through BuildField/BuildFields/build is observed on the real pipeline (24 shapes: depth 0-2, list / map contexts, below a nested map / list, an embedded message with no other field, a later selected type, two selected types sharing the offending message, with and without exclude_fields; accompanying, not solver-decided).", "6 C18"),
  "C19": ("model_checking", "Exact equality of every scalar leaf after CopyTo;CopyFrom over the full machine width / full IEEE-754 range (up to the sign of zero, NaN excluded), decided on the emitted cast pairs as bit-vector / floating-point formulas. A time / duration held by value as a oneof branch survives the round trip with any payload, zero included.", "6 C19"),
  "C20": ("model_checking", "Null-ness of every attribute outside list/map elements after CopyTo into an empty object against the field's value (incl. by-value messages and time/duration inside nullable embedded messages), for all struct values within the bounds. The branch a oneof holds follows the same null-iff-zero rule.", "6 C20"),
 }
